@@ -30,7 +30,12 @@ def _verify_one(job):
     from .verify import FunctionVerifier
     from .loader import Unsupported
     repo, db = load(repo_root)
+    variant = None
+    if "@" in fn_key:
+        fn_key, variant = fn_key.split("@", 1)
     c = db.contracts[fn_key]
+    if variant is not None:
+        c.binds = {**c.binds, **c.variants[variant]}
     if extra_requires:
         c.requires = list(c.requires) + list(extra_requires)
     t0 = time.time()
@@ -60,6 +65,8 @@ def _verify_one(job):
                           "status": f.status}
                          for f in e["failures"][:3]],
         }
+    if variant is not None:
+        fn_key = f"{fn_key}@{variant}"
     return {"fn": fn_key, "error": rep.error, "crash": rep.crash, "obligations": obs, "paths": rep.paths,
             "reachable": rep.reachable_paths, "queries": rep.queries, "assumed": sorted(rep.assumed),
             "wall": round(rep.wall, 3), "solver_time": round(rep.solver_time, 3), "sha": rep.finfo.sha,
@@ -95,7 +102,13 @@ def run_check(prop, tier, repo_root, only=None, verbose=False):
     if only:
         keys = [k for k in keys if only in k]
     lemma_idx = [i for i, l in enumerate(db.lemmas) if prop in l.get("serves", [])]
-    jobs = [(repo_root, k, [], prop) for k in keys]
+    jobs = []
+    for k in keys:
+        vs = db.contracts[k].variants
+        if vs:
+            jobs += [(repo_root, f"{k}@{v}", [], prop) for v in vs]
+        else:
+            jobs.append((repo_root, k, [], prop))
     workers = min(16, max(1, len(jobs) + len(lemma_idx)))
     results, lemma_results = [], []
     if os.environ.get("PYVC_SERIAL") or workers == 1:
